@@ -215,6 +215,8 @@ func genFATCfg(t *rapid.T, maxBytes int64) fatCfg {
 		}
 	}
 	c.Size = rapid.SampledFrom(ok).Draw(t, "size")
+	// a few sectors more, so that the data area leaves every possible remainder of a cluster unused at its end
+	c.Size += int64(rapid.IntRange(0, 15).Draw(t, "oddSectors")) * 512
 	c.Start = rapid.SampledFrom([]int64{0, 0, 512, 1 << 20, 1<<32 + 4096}).Draw(t, "start")
 	c.Tail = rapid.SampledFrom([]int64{0, 512, 1 << 20}).Draw(t, "tail")
 	c.BS = 512
@@ -1053,6 +1055,26 @@ func (x *fatRun) fillCycle(op fsOp) {
 			}
 			created = true
 			stored++
+		}
+		// top up with ever smaller appends until not even one byte fits: the last cluster of the volume
+		// is only reached this way (the chunk that was refused may have been many clusters long)
+		for sz := op.Chunk / 2; sz >= 1 && n != nil && created && !x.r.Failed(); {
+			data := mk.Content{Seed: op.D.Seed*1000 + 900 + uint32(sz%97), Len: sz}.Bytes()
+			old := len(n.Data)
+			n.WriteAt(int64(old), data)
+			if err := x.openWrite(op.P, os.O_RDWR|os.O_APPEND, 0, data, false); err != nil {
+				n.Data = n.Data[:old]
+				x.resync(op.P)
+				if n = x.m.Lookup(op.P); n == nil {
+					break
+				}
+				sz /= 2
+				continue
+			}
+			x.r.Class("fill-topup")
+		}
+		if x.r.Failed() {
+			return
 		}
 		x.compare(fmt.Sprintf("fill round %d after %d chunks of %d", round, stored, op.Chunk))
 		x.structural(fmt.Sprintf("fill round %d full", round))
